@@ -13,7 +13,7 @@
      Waiting  blocked while the thread is in the condvar's wait set; after notify_all:
               --(re-acquire mutex, end of loop iteration, unlock)-->                    WHead
      WDone  --(take_error)-->  return Err | S402
-     S402   -->                                                                         S304
+     S402   --(not elected, fx: the commit returns Ok)  |  otherwise -->                S304
      S304   --[state.lock: pending empty -> None: the commit returns Ok
                            else flag := true; batch := drain(..)]-->                    S404
      S404   --[wal.lock: write each payload of the batch, stop at the first failure]--> S403
@@ -26,9 +26,10 @@
    min_batch_size = 1) is "pending is not empty"; the 30 s timeout of wait_for is not modelled.
    parking_lot's Condvar has no spurious wake-ups; notify_all empties the wait set.
 
-   [fx] selects the variant: false = the code as it is (after submit_and_wait returned Ok the
-   caller UNCONDITIONALLY calls take_pending); true = the proposed repair (only the thread that
-   was elected leader calls take_pending), used for the repair theorem only.
+   [fx] selects the variant: true = the code as it is since /repo 77fabcc (submit_and_wait_role
+   tells the caller whether it was elected leader, and only the elected leader calls
+   take_pending); false = the caller protocol before that commit (after submit_and_wait returned
+   Ok the caller UNCONDITIONALLY called take_pending), kept for the refutation theorem.
 
    Ghost components (never read by a step's control flow): subs, taken, att_ok, att_fail, acks,
    stolen. *)
@@ -204,8 +205,8 @@ Definition init (progs : list (list op)) : St :=
 (* ---- hook sites (where the deterministic scheduler can park a thread) *)
 Definition finished (th : thr) : bool :=
   match pc th, prog th with Idle, [] => true | _, _ => false end.
-(* [s404]: the extra site of the harness copy of the caller protocol, between take_pending and
-   the WAL write (the real execute_small_commit has no hook there) *)
+(* [s404]: is site 404 (between take_pending and the WAL write; in execute_small_commit since
+   /repo 8d9152c) a scheduling site *)
 Definition site_of (s404 : bool) (p : pcT) : option Z :=
   match p with
   | S401 => Some 401 | S301 => Some 301 | S302 => Some 302 | S402 => Some 402 | S304 => Some 304
